@@ -689,7 +689,7 @@ pub fn run(cfg: &Cfg, rep: &mut Report) {
     rep.rule = "(a) exhaustive sweep (split over shards) of transfer and transfer_from under all 2^7 combinations of {paused, from frozen, to frozen, amount > free, id(from) fails, id(to) fails, compliance denies} and mint under 2^2, each in 3 variants (partial amount, self-transfer, whole balance) on a fresh token with sufficient balance and allowance; (a') the library's own compliance dispatcher with 3 scripted logging modules: every entry point x every subset of registered modules {all, two, none} x every subset of denying modules; (b) seeded histories of mint/transfer/transfer_from/approve/forced_transfer/burn/recover_balance/freeze/unfreeze/set_address_frozen/pause/unpause with gate toggles in between, amounts around balance, free and frozen. Distinct case = (entry point, 7-bit gate vector, outcome) for (a) and (op, gate vector or freeze class, outcome) for (b).".into();
     gate_sweep(cfg, rep);
     real_dispatcher(cfg, rep);
-    let nh = cfg.pick(60u64, 400);
+    let nh = cfg.pick(60u64, 1200);
     let steps = cfg.pick(160usize, 300);
     for k in 0..nh {
         let h = 10_000 + k;
